@@ -557,3 +557,24 @@ def x22_try_result(s):
         recv = s[start:q]
         hits.append(' '.join(recv.split())[-60:] + '?')
         s = s[:start] + "(match %s { Ok(__v) => __v, Err(__e) => return Err(From::from(__e)) })" % recv + s[q + 1:]
+
+
+# ---------------------------------------------------------------- X20 iter().take(k).enumerate()
+def x20_take_enumerate(s):
+    hits = []
+    pat = re.compile(r'\bfor \((\w+), (\w+)\) in (.+?)\.iter\(\)\.take\((\w+)\)\.enumerate\(\) \{')
+    while True:
+        m = pat.search(s)
+        if not m:
+            return s, hits
+        idx, val, recv, k = m.groups()
+        n = _fresh('s')
+        b = m.end() - 1
+        e = match_close(s, b)
+        body = s[b + 1:e]
+        if re.search(r'\bcontinue\b', body):
+            raise ValueError('X20: loop body contains continue')
+        new = ("let __s%d = &%s; let mut %s: usize = 0;\n        while %s < %s && %s < __s%d.len() {\n            let %s = __s%d[%s];%s    %s += 1;\n        }"
+               % (n, recv, idx, idx, k, idx, n, val, n, idx, body, idx))
+        hits.append(' '.join(s[m.start():m.end()].split()))
+        s = s[:m.start()] + new + s[e + 1:]
